@@ -18,6 +18,17 @@
 (*                        Any interface{}; Hid int `json:"-"` }              *)
 (*        func (t T) GetA() int;  func (t *T) SetA(v int)                    *)
 (*   [k |-> "ptrnil"]                       a nil pointer to T                    *)
+(*   [k |-> "ptr", to]                      a pointer to the (scalar) value to    *)
+(*   [k |-> "nilptr", of]                   a nil pointer to a scalar kind        *)
+(*   [k |-> "named", base]                  a value of a declared named type      *)
+(*                                          (type Port uint16) of base's kind     *)
+(*   [k |-> "imap", key, named, elem, isnil, keys, vals]   a map keyed by the     *)
+(*        integer kind key (named: by the declared named type of that kind);      *)
+(*        keys are exact integers in the code-unit order of their decimal text    *)
+(*   [k |-> "nstruct", ptr, f]              struct NS { A NInt; B NInt8; ...      *)
+(*        J NUint64; L NFloat64 }: one field per named numeric type, f in order   *)
+(* A pointer and a named type convert exactly like their base kind (value.go     *)
+(* toValue drills through pointers; Go conversion rules for named types).        *)
 (*                                                                           *)
 (* JavaScript values as scripts see them ("J"): the primitives of Val.tla,   *)
 (*   [t |-> "arr", items]  (holes are [t |-> "hole"]),                        *)
@@ -100,6 +111,17 @@ GFlt(k, n) == [k |-> k, n |-> n]
 GStr(s) == [k |-> "string", s |-> s]
 GSlice(elem, isnil, items) == [k |-> "slice", elem |-> elem, isnil |-> isnil, items |-> items]
 GMap(elem, isnil, keys, vals) == [k |-> "map", elem |-> elem, isnil |-> isnil, keys |-> keys, vals |-> vals]
+GPtr(g) == [k |-> "ptr", to |-> g]
+GNilPtr(kind) == [k |-> "nilptr", of |-> kind]
+GNamed(g) == [k |-> "named", base |-> g]
+GIMap(key, named, elem, isnil, keys, vals) ==
+    [k |-> "imap", key |-> key, named |-> named, elem |-> elem, isnil |-> isnil, keys |-> keys, vals |-> vals]
+GNStruct(ptr, f) == [k |-> "nstruct", ptr |-> ptr, f |-> f]
+(* the value behind pointers and named types *)
+RECURSIVE Base(_)
+Base(g) == CASE g.k = "ptr" -> Base(g.to) [] g.k = "named" -> Base(g.base) [] g.k = "nilptr" -> [k |-> "nil"] [] OTHER -> g
+NSKeys == <<<<65>>, <<66>>, <<67>>, <<68>>, <<69>>, <<70>>, <<71>>, <<72>>, <<73>>, <<74>>, <<76>>>>      \* A .. J, L
+
 GStruct(ptr, a, b, c, f, any, hid) ==
     [k |-> "struct", ptr |-> ptr, A |-> a, B |-> b, c |-> c, F |-> f, Any |-> any, Hid |-> hid]
 
@@ -130,7 +152,11 @@ S_SetA == <<83, 101, 116, 65>>
 (* (listed here in code-unit order, as the observation sorts them).          *)
 RECURSIVE ToJS(_)
 ToJS(g) ==
-    CASE g.k \in {"nil", "ptrnil"} -> Undef
+    CASE g.k \in {"nil", "ptrnil", "nilptr"} -> Undef
+      [] g.k = "ptr" -> ToJS(g.to)
+      [] g.k = "named" -> ToJS(g.base)
+      [] g.k = "imap" -> JObj([i \in 1..Len(g.keys) |-> DigitsZ(g.keys[i])], [i \in 1..Len(g.vals) |-> ToJS(g.vals[i])])
+      [] g.k = "nstruct" -> JObj(NSKeys, [i \in 1..Len(g.f) |-> ToJS(g.f[i])])
       [] g.k = "bool" -> BoolV(g.b)
       [] g.k \in IntKinds -> NumV(ToDouble(g.z))
       [] g.k \in FltKinds -> NumV(g.n)
@@ -148,15 +174,23 @@ ToJS(g) ==
 (* them.  A Go integer beyond 2^53 that is not a double has no Number value  *)
 (* of its own: the script must see the nearest double in every respect.      *)
 TypeOfJ(j) == CASE j.t \in {"arr", "obj"} -> S_object [] j.t = "fn" -> S_function [] OTHER -> TypeOfPrim(j)
-ScriptString(g) ==
+ScriptString(g0) ==
+    LET g == Base(g0) IN
     IF g.k \in IntKinds /\ D("D15_go_integer_tostring_exact_digits")
     THEN DigitsZ(g.z)                                    \* value_string.go Value.string(): strconv.FormatInt of the Go integer
     ELSE ToStringPrim(ToJS(g))
+(* the names for-in visits on the counterpart (12.6.4): the enumerable keys *)
+ForInKeys(j) == IF j.t = "arr" THEN [i \in 1..Len(j.items) |-> DigitsNat(i - 1)]     \* at most 10 elements are generated: already in code-unit order
+                ELSE IF j.t = "obj" THEN j.keys ELSE <<>>
 
 (* ---- reading a Go-originated value back on the Go side ------------------- *)
 (* Export returns the value that was set; float32 arrives widened to float64 *)
 (* (toValue stores float64(value)), a nil pointer as nil.                    *)
-ExportG(g) == CASE g.k = "float32" -> GFlt("float64", g.n)
+(* A pointer to a scalar or a value of a named scalar type reads back as the *)
+(* value of the base kind (toValue keeps only that); inside containers the   *)
+(* original Go container - named element types included - is returned.       *)
+ExportG(g0) == LET g == IF g0.k \in {"ptr", "named", "nilptr"} THEN Base(g0) ELSE g0 IN
+              CASE g.k = "float32" -> GFlt("float64", g.n)
                 [] g.k = "ptrnil" -> GNil
                 [] OTHER -> g
 
@@ -171,15 +205,16 @@ I64OfNum(x) == IF IsNaN(x) THEN I(0)
 PrimNumOfG(g) ==          \* 9.3 ToNumber of the counterpart (primitives)
     ToNumberPrim(ToJS(g))
 
-ToIntegerG(g) ==
+ToIntegerG(g0) ==
+    LET g == Base(g0) IN
     IF g.k \in IntKinds
     THEN (IF g.k \in {"uint", "uint64"} /\ D("D15_tointeger_uint64_through_float64")
           THEN I64OfNum(ToDouble(g.z))                   \* value_number.go Value.number(): no exact path for uint, uint64
           ELSE ClampI64(g.z))
     ELSE I64OfNum(PrimNumOfG(g))
 ToFloatG(g)   == PrimNumOfG(g)
-ToStringG(g)  == IF g.k \in IntKinds THEN DigitsZ(g.z) ELSE ToStringPrim(ToJS(g))     \* equal to the original
-ToBooleanG(g) == IF g.k \in IntKinds THEN ~IsZero(g.z) ELSE ToBoolean(ToJS(g))
+ToStringG(g0)  == LET g == Base(g0) IN IF g.k \in IntKinds THEN DigitsZ(g.z) ELSE ToStringPrim(ToJS(g))     \* equal to the original
+ToBooleanG(g0) == LET g == Base(g0) IN IF g.k \in IntKinds THEN ~IsZero(g.z) ELSE ToBoolean(ToJS(g))
 
 (* MarshalJSON: the JSON text denoting the value, as a tree.  Numbers are    *)
 (* given by value; NaN and the infinities have no JSON text (error).  Go's   *)
@@ -202,7 +237,16 @@ JErr == [j |-> "error"]
 RECURSIVE GoJSON(_)
 AnyErr(seq) == \E i \in 1..Len(seq) : seq[i].j = "error"
 GoJSON(g) ==
-    CASE g.k \in {"nil", "ptrnil"} -> JNull
+    CASE g.k \in {"nil", "ptrnil", "nilptr"} -> JNull
+      [] g.k = "ptr" -> GoJSON(g.to)
+      [] g.k = "named" -> GoJSON(g.base)
+      [] g.k = "imap" ->          \* encoding/json: integer keys as their decimal text, sorted as strings
+            IF g.isnil THEN JNull
+            ELSE LET vs == [i \in 1..Len(g.vals) |-> GoJSON(g.vals[i])]
+                 IN  IF AnyErr(vs) THEN JErr ELSE [j |-> "obj", keys |-> [i \in 1..Len(g.keys) |-> DigitsZ(g.keys[i])], vals |-> vs]
+      [] g.k = "nstruct" ->
+            LET vs == [i \in 1..Len(g.f) |-> GoJSON(g.f[i])]
+            IN  IF AnyErr(vs) THEN JErr ELSE [j |-> "obj", keys |-> NSKeys, vals |-> vs]
       [] g.k = "bool" -> [j |-> "bool", b |-> g.b]
       [] g.k \in IntKinds -> [j |-> "num", n |-> g.z]
       [] g.k \in FltKinds -> IF IsFinite(g.n) THEN [j |-> "num", n |-> JsonNumF(g.n)] ELSE JErr
@@ -218,6 +262,25 @@ GoJSON(g) ==
       [] g.k = "struct" ->
             LET vs == <<[j |-> "num", n |-> g.A], GoJSON(g.Any), GoJSON(GFlt("float64", g.F)), [j |-> "str", s |-> g.B]>>
             IN  IF AnyErr(vs) THEN JErr ELSE [j |-> "obj", keys |-> <<S_A, S_Any, S_F, S_bee>>, vals |-> vs]
+
+(* Known deviations that end the whole observation of a Go value in a Go     *)
+(* panic: (1) a float32 that reaches toValue through reflection (behind a    *)
+(* pointer, as a named type, or as a field/element of a named float32 type)  *)
+(* is stored as a Go float32, for which Value.float64() has no case: every   *)
+(* numeric use panics with the foreign error "toFloat(float32)"; (2) a map   *)
+(* whose key type is a named type: goMapGetOwnProperty looks the key up with *)
+(* a value of the base kind, reflect.Value.MapIndex panics.                  *)
+GKids(g) == CASE g.k = "slice" -> g.items [] g.k \in {"map", "imap"} -> g.vals [] g.k = "nstruct" -> g.f
+              [] g.k = "struct" -> <<g.Any>> [] g.k = "ptr" -> <<g.to>> [] g.k = "named" -> <<g.base>> [] OTHER -> <<>>
+RECURSIVE HasReflectedF32(_)
+HasReflectedF32(g) == \/ (g.k = "ptr" /\ Base(g.to).k = "float32")
+                      \/ (g.k = "named" /\ Base(g.base).k = "float32")
+                      \/ \E i \in 1..Len(GKids(g)) : HasReflectedF32(GKids(g)[i])
+RECURSIVE HasNamedKeyMap(_)
+HasNamedKeyMap(g) == \/ (g.k = "imap" /\ g.named /\ Len(g.keys) > 0)
+                     \/ \E i \in 1..Len(GKids(g)) : HasNamedKeyMap(GKids(g)[i])
+G2JPanics(g) == \/ (D("D15_reflected_float32_unusable") /\ HasReflectedF32(g))
+                \/ (D("D15_map_named_key_type_panics") /\ HasNamedKeyMap(g))
 
 -----------------------------------------------------------------------------
 (* JavaScript -> Go: Value predicates, conversions and Export (value.go)     *)
